@@ -16,14 +16,16 @@ BIN = 'c16'
 SIG = {'consts': '', 'aliases': ''}
 encode = default_encode(SIG)
 decode = default_decode(SIG)
-SOURCES = ['c01', 'c02', 'c03', 'c05', 'c06', 'c07', 'c08', 'c10', 'c11', 'c12']
-RULE = ('(a) for every width that exists in >= 2 digit types, the requests of the C01/02/03/05/06/07/08/10/11/12 generators are sent to '
+SOURCES = ['c01', 'c02', 'c03', 'c05', 'c06', 'c07', 'c08', 'c10', 'c11', 'c12', 'c14', 'c15', 'c18', 'c19', 'c20']
+HEAVY = {'c03': 5}   # budget multipliers: division needs volume for the rare Knuth-D paths to differ between digit sizes
+RULE = ('(a) for every width that exists in >= 2 digit types, the requests of the C01/02/03/05/06/07/08/10/11/12/14/15/18/19/20 generators are sent to '
         'every representation and every outcome is compared textually across representations (hashes and digit-operand forms '
         'excluded; outcomes the property leaves open are skipped); (b) for 16 (narrow, wide) pairs across digit types the checked '
         'forms / comparisons / decimal parse and print of the narrow type are compared with the wide type on the same values; '
         '(c) all associated constants of every configuration and the U128..I8192 aliases. Non-trivial: every cross-representation '
         'comparison of a request that is non-trivial for its source property; distinct = distinct (source, width, request)')
-EXCLUDE = {'hash_a', 'hash_b', 'hash_xor_route', 'hash_add_route', 'hash_parse_route', 'hash_cast_route', 'hash_not_route'}
+EXCLUDE = {'as_bnum_ia', 'as_bnum_ub',   # C19 targets that are chosen per digit family (different widths): not comparable
+           'hash_a', 'hash_b', 'hash_xor_route', 'hash_add_route', 'hash_parse_route', 'hash_cast_route', 'hash_not_route'}
 WIDE_OK = {
     'c01': ['checked_add', 'checked_sub', 'checked_neg', 'checked_abs', 'midpoint'],
     'c02': ['checked_mul'],
@@ -65,6 +67,7 @@ def make_tasks(runmod, tier, seed, scale, bins):
     for w, reps in groups(full):
         for src in SOURCES:
             nn = n if w <= 1024 else max(20, n // 30)
+            nn *= HEAVY.get(src, 1)
             tasks.append({'prop': PROP, 'custom': 'same', 'src': src, 'reps': reps, 'width': w, 'n': nn, 'tier': tier, 'bins': allbins,
                           'seed': core.h64('%d/C16/same/%s/%s' % (seed, src, reps[0])), 'weight': w * 3})
     for nar, wide in PAIRS:
@@ -84,9 +87,14 @@ def _gen(src, cfg, rng, n, tier, st):
         cfgx = cfg
     reqs = []
     dummy = {'exhaustive': []}
-    it = P.requests(cfg, rng, n, tier, rng.randrange(64), 64, dummy, **kw) if cfg.bits <= 16 and src not in ('c03',) else P.requests(cfg, rng, n, tier, 0, 1, dummy, **kw)
+    if src == 'c20':
+        it = P.requests(cfg, rng, n * 3, tier, 0, 64 if cfg.bits <= 24 else 1, dummy)
+    elif cfg.bits <= 16 and src != 'c03':
+        it = P.requests(cfg, rng, n, tier, rng.randrange(64), 64, dummy, **kw)
+    else:
+        it = P.requests(cfg, rng, n, tier, 0, 1, dummy, **kw)
     for g, a in it:
-        if src == 'c03' and g == 'dd':
+        if (src == 'c03' and g == 'dd') or (src == 'c20' and g == 'hist'):
             continue
         reqs.append((g, a))
         if len(reqs) >= n:
@@ -139,7 +147,7 @@ def custom_task(task, st, runmod):
                         st['events'] += 1
                         st['ops'][task['src'] + ':' + name] += 1
                         e = exp.get(name)
-                        if e is not None and runmod.is_loose(e):
+                        if e is not None and _left_open(e):
                             continue
                         if other.get(name) != raw:
                             runmod.add_violation(st, P_as(PROP), reps[ri], mode, outs[ri][0][k], task['src'] + ':' + name, '%s gives %s' % (reps[ri].name, other.get(name)),
@@ -215,6 +223,16 @@ def custom_task(task, st, runmod):
             st['classes'][cname if hit else 'plain:' + cname + ' (narrow result not representable, nothing to compare)'] += 1
             if hit:
                 st['nontrivial'].add(core.h64('%s/%s/%s' % (src, wide.name, res[0][0][k])))
+
+
+def _left_open(e):
+    """outcomes the source property leaves open (ANY / NOPANIC / OneOf) may differ between digit types; a Pred only means that the
+    source model cannot predict the value (e.g. which in-range value a sampler returns) - representations must still agree on it"""
+    if e is core.ANY or e is core.NOPANIC or isinstance(e, core.OneOf):
+        return True
+    if isinstance(e, tuple):
+        return any(_left_open(x) for x in e)
+    return False
 
 
 class _P:
